@@ -31,6 +31,26 @@ import (
 type stubTM struct {
 	client.Client
 	synced int32
+	mu     sync.Mutex
+	sent   [][]byte // transactions the node itself broadcast (automatic claims and proofs), oldest first
+}
+
+// BroadcastTxSync is what the automatic claim / proof senders end in: the transaction is kept for the driver to put into
+// a block, as a mempool would.
+func (s *stubTM) BroadcastTxSync(tx tmtypes.Tx) (*ctypes.ResultBroadcastTx, error) {
+	s.mu.Lock()
+	s.sent = append(s.sent, append([]byte{}, tx...))
+	s.mu.Unlock()
+	return &ctypes.ResultBroadcastTx{Code: 0, Hash: tx.Hash()}, nil
+}
+
+// TakeSent returns and forgets the transactions broadcast by the node so far.
+func (s *stubTM) TakeSent() [][]byte {
+	s.mu.Lock()
+	defer s.mu.Unlock()
+	out := s.sent
+	s.sent = nil
+	return out
 }
 
 func (s *stubTM) ConsensusReactorStatus() (*ctypes.ResultConsensusReactorStatus, error) {
@@ -47,6 +67,19 @@ type NodeCfg struct {
 	AppDB, BlockDB, TxDB dbm.DB
 	HostedChainURL       string
 	GenesisJSON          string // raw exported app state; overrides Gen for the genesis content
+	Opts                 NodeOpts
+}
+
+// NodeOpts are node-local configuration values (pocket config), not chain state.
+type NodeOpts struct {
+	// HostedChain: start a loopback HTTP server that plays the hosted blockchains (echoes a deterministic JSON answer)
+	HostedChain bool `json:"hosted_chain,omitempty"`
+	// ClientBlockSyncAllowance: 0 = 10000 (never refuses)
+	ClientBlockSyncAllowance int `json:"client_block_sync_allowance,omitempty"`
+	// ClientSessionSyncAllowance: sessions a relay's session height may lag behind (0 = config default)
+	ClientSessionSyncAllowance int64 `json:"client_session_sync_allowance,omitempty"`
+	MaxSessionCacheEntries     int   `json:"max_session_cache_entries,omitempty"`
+	MaxEvidenceCacheEntries    int   `json:"max_evidence_cache_entries,omitempty"`
 }
 
 type ValEntry struct {
@@ -74,6 +107,8 @@ type Node struct {
 	InBlock bool
 	cur     *curBlock
 	Exited  bool
+	// Pending: transactions the node itself broadcast and the driver has collected ("autotx"); a block lists them as "pending"
+	Pending []string
 }
 
 type curBlock struct {
@@ -100,6 +135,9 @@ func NewNode(cfg NodeCfg) *Node {
 		cfg.TxDB = dbm.NewMemDB()
 	}
 	url := cfg.HostedChainURL
+	if url == "" && cfg.Opts.HostedChain {
+		url = startHostedChain()
+	}
 	if url == "" {
 		url = "http://127.0.0.1:1" // never dialled unless a relay is executed
 	}
@@ -125,10 +163,23 @@ func NewNode(cfg NodeCfg) *Node {
 		dataDir = d
 	}
 	pcfg.PocketConfig.DataDir = dataDir
+	if v := cfg.Opts.ClientSessionSyncAllowance; v != 0 {
+		pcfg.PocketConfig.ClientSessionSyncAllowance = v
+	}
+	if v := cfg.Opts.MaxSessionCacheEntries; v != 0 {
+		pcfg.PocketConfig.MaxSessionCacheEntries = v
+	}
+	if v := cfg.Opts.MaxEvidenceCacheEntries; v != 0 {
+		pcfg.PocketConfig.MaxEvidenceCacheEntires = v
+	}
 	pocketTypes.CleanPocketNodes()
 	pocketTypes.AddPocketNode(Key(KeyNode0), logger)
 	pocketTypes.InitConfig(hb, logger, pcfg)
-	pocketTypes.InitClientBlockAllowance(10000)
+	if v := cfg.Opts.ClientBlockSyncAllowance; v != 0 {
+		pocketTypes.InitClientBlockAllowance(v)
+	} else {
+		pocketTypes.InitClientBlockAllowance(10000)
+	}
 	sdk.InitCtxCache(20)
 	n := &Node{Cfg: cfg, TM: &stubTM{}}
 	if cfg.GenesisJSON != "" {
